@@ -686,6 +686,16 @@ func (ex *Exec) unifyConst(a, b Val) (Val, Val) {
 
 func (ex *Exec) indexSpec(x, i Val) Val {
 	ts := ex.ts
+	if ms, ok := x.(Scalar); ok && ms.Typ != nil {
+		if mt, isMap := under(ms.Typ).(*types.Map); isMap {
+			if c, isConst := i.(Scalar); isConst && c.T == nil {
+				i = Scalar{T: ex.constTerm(c.Const, mt.Key()), Typ: mt.Key()}
+			}
+			r := ex.mapRegs(ms.Typ)
+			v, _ := ex.mapRead(r, ms.T, ex.keyTerm(i, mt.Key()))
+			return v
+		}
+	}
 	var it *Term
 	if s, ok := i.(Scalar); ok {
 		if s.T == nil {
@@ -765,7 +775,7 @@ func (ex *Exec) seqConcat(a, b SeqV) Val {
 
 func (ex *Exec) loadGlobal(gp GlobalPtr) Val {
 	v := ex.load(gp)
-	if iv, ok := v.(IfaceV); ok && ex.immutableGlobals[gp.Name] {
+	if iv, ok := v.(IfaceV); ok && ex.globalImmutable(gp.Name) {
 		// immutable package-level interface values (error sentinels): non-nil and pairwise distinct
 		ts := ex.ts
 		seen := false
@@ -930,4 +940,22 @@ func (ex *Exec) softBool(e *Expr, env *Env) (res *Term) {
 		}
 	}()
 	return ex.asBool(ex.eval1(e, env))
+}
+
+
+// globalImmutable: never stored outside init in the loaded packages; variables of packages that are not loaded with
+// syntax (standard library, dependencies) are assumed not to be reassigned (io.EOF and friends).
+func (ex *Exec) globalImmutable(name string) bool {
+	if ex.immutableGlobals[name] {
+		return true
+	}
+	i := strings.LastIndex(name, ".")
+	if i < 0 {
+		return false
+	}
+	if _, loaded := ex.prog.SPkgs[name[:i]]; !loaded {
+		ex.note("package-level variables of packages outside the repository are never reassigned (" + name + ")")
+		return true
+	}
+	return false
 }
